@@ -2,7 +2,7 @@
 
 The simulator constructs a state whose M active particles are exact iid draws from pi_beta (product-form
 targets sampled by inverse CDF), runs the real mutate stage (Mutator.run -> parallel_mcmc) under the RNG seam
-and compares the post-stage empirical marginal CDFs and second moments with the exact values.
+and compares the post-stage empirical marginal CDFs, second moments and (d>=2) cross moments with the exact values.
 d=1, n_steps=n_max_steps=1 is exactly one kernel application with independent walkers (binomial law exact);
 for d>=2 the stage takes >= d steps with step-size adaptation coupling the walkers, so the ensemble is split
 into independent stage calls and a t-test on the call means is used.
@@ -20,7 +20,7 @@ PROP = "C03"
 LEVEL = "exploration"
 RULE = ("cells = kernel {tpcn,rwm} x boundary type of the tested coordinate {hard-interior, hard-abutting, periodic, reflective} x target factor {flat, truncated Gaussian, exponential at an edge, "
         "von Mises across the wrap point} x mode statistics {K in 1,2; means inside/outside the cube; random SPD scale; nu in 1,5,1e6} x beta in {0.1,0.5,1} x preset step size x d in {1,2,3}; "
-        "each cell starts the real mutate stage from exact draws of pi_beta and tests marginal CDFs at 7 quantiles and second moments (|z|<=6, Bonferroni inside the cell: 7*d+d statistics); "
+        "each cell starts the real mutate stage from exact draws of pi_beta and tests marginal CDFs at 7 quantiles, second moments and cross moments E[u_i u_j] (|z|<=6 per statistic); "
         "RWM on periodic/reflective/interior coordinates is the standing negative control; distinct = cell; non-trivial = acceptance rate in (0.02,0.98)")
 ASSUMPTIONS = ["statistical oracle: a cell is a violation iff some |z|>6 (per-statistic false-alarm probability 2e-9 under the null)",
                "d>=2 cells use a t-test over independent stage calls, so walker coupling through step-size adaptation cannot masquerade as a violation; its O(1/walkers) effect is below the resolution",
@@ -128,6 +128,7 @@ def run_case(cell):
         calls, m = cell["calls"], cell["M"] // cell["calls"]
         cm = {(i, j): [] for i in range(d) for j in range(7)}
         m2s = {i: [] for i in range(d)}
+        xms = {(i, j): [] for i in range(d) for j in range(i + 1, d)}
         accs = []
         z0 = 0.0
         for c in range(calls):
@@ -137,6 +138,8 @@ def run_case(cell):
                 for j, p in enumerate(pts[i]):
                     cm[(i, j)].append(float(np.mean(u1[:, i] <= p)))
                 m2s[i].append(float(np.mean(u1[:, i] ** 2)))
+            for (i, j) in xms:
+                xms[(i, j)].append(float(np.mean(u1[:, i] * u1[:, j])))
         acc = float(np.mean(accs))
         for (i, j), vals in cm.items():
             vals = np.array(vals)
@@ -144,6 +147,9 @@ def run_case(cell):
         for i, vals in m2s.items():
             vals = np.array(vals)
             zs.append(("m2", i, None, (vals.mean() - (mom[i][1] + mom[i][0] ** 2)) / (vals.std(ddof=1) / math.sqrt(len(vals)) + 1e-300)))
+        for (i, j), vals in xms.items():  # coordinates are independent under a product-form pi_beta: E[u_i u_j] = m_i m_j
+            vals = np.array(vals)
+            zs.append(("cross", (i, j), None, (vals.mean() - mom[i][0] * mom[j][0]) / (vals.std(ddof=1) / math.sqrt(len(vals)) + 1e-300)))
         # t-distribution with calls-1 dof: convert the threshold (two-sided 2e-9) to the t scale
     zmax = max(zs, key=lambda t: abs(t[3]))
     thr = Z
@@ -153,7 +159,7 @@ def run_case(cell):
         thr = float(sst.t.isf(sst.norm.sf(Z), cell["calls"] - 1))
     violations = []
     btype = cell["boundary"] if cell["boundary"] in ("periodic", "reflective") else "hard"
-    fail_btype = btype if zmax[1] == 0 else "hard"  # coordinates other than the first are always hard
+    fail_btype = btype  # coordinates other than the first are always hard
     if z0 > Z:
         raise RuntimeError(f"harness self-check failed: exact start sample has |z|={z0:.1f}")
     if abs(zmax[3]) > thr:
@@ -168,7 +174,7 @@ def run_case(cell):
 
 def cases(seed, tier):
     sch = Sched(seed)
-    n = 48 if tier == "quick" else 640
+    n = 64 if tier == "quick" else 640
     out = []
     combos = []
     for kernel in ("tpcn", "rwm"):
